@@ -18,4 +18,9 @@ VARIANTS = [
  dict(name="rotation-wrong-side", kind="break", rule="C10.R4", file=TM, old="        res[...] = U.dot(tensor_crystal).dot(U.T)", new="        res[...] = U.T.dot(tensor_crystal).dot(U)"),
  dict(name="keep-polar-V-regrouped", kind="keep", file=FS, old="            V = np.dot( w   , np.dot( np.diag(sing), w.T ) )", new="            V = np.dot( np.dot( w, np.diag(sing) ), w.T )"),
  dict(name="keep-even-path-explicit", kind="keep", file=FS, old="            em = (Bm - np.eye(3))/m2", new="            em = (Bm - np.eye(3))/(2*m)"),
+ dict(name="reference-B-uses-U-of-grain", kind="break", rule="C10.R4", file=GR, strict=False, old="            B = dzero_cell.UB\n", new="            B = dzero_cell.U\n"),
+ dict(name="reference-B-test-negated", kind="break", rule="C10.R4", file=GR, strict=False, old='        if hasattr(dzero_cell, "UB"):\n            B = dzero_cell.UB', new='        if not hasattr(dzero_cell, "UB"):\n            B = dzero_cell.UB'),
+ dict(name="keep-reference-B-conditional-expression", kind="keep", file=GR, strict=False,
+      old='        if hasattr(dzero_cell, "UB"):\n            B = dzero_cell.UB\n        else:\n            B = ImageD11.unitcell.unitcell(dzero_cell).B\n',
+      new='        B = dzero_cell.UB if hasattr(dzero_cell, "UB") else ImageD11.unitcell.unitcell(dzero_cell).B\n'),
 ]
